@@ -104,7 +104,7 @@ Proof.
 Qed.
 
 Lemma half_is (x : R) : half RO = 1 / 2.
-Proof. unfold half; cx. cbn. field. Qed.
+Proof. unfold half; cx. unfold powerRZ. simpl. field. Qed.
 
 (* logabs z = ln |z|, and on the way: the divisor is non-zero, both log arguments are positive (definedness) *)
 Lemma logabs_spec (z : C) : z <> (0, 0) -> logabs RO z = ln (Cmod z).
@@ -202,13 +202,13 @@ Lemma ln10_pos : 0 < ln 10.  Proof. rewrite <- ln_1. apply ln_increasing; lra. Q
 Theorem log2_spec (z : C) : z <> (0, 0) -> exp_fb RO (mul_real RO (log2_ RO RE fb_bind z) (ln 2)) = z.
 Proof.
   intros Hz. rewrite <- (exp_log_id z Hz) at 2. f_equal. unfold log2_, clog_, mul_real. cbn [have fb_bind k_ln1_2 RE]. cx.
-  pose proof ln2_pos. apply pair_eq; field; lra.
+  pose proof ln2_pos. destruct (log_fb RO RE z) as [p q]; cbn [fst snd]. apply pair_eq; field; lra.
 Qed.
 
 Theorem log10_spec (z : C) : z <> (0, 0) -> exp_fb RO (mul_real RO (log10_ RO RE fb_bind z) (ln 10)) = z.
 Proof.
   intros Hz. rewrite <- (exp_log_id z Hz) at 2. f_equal. unfold log10_, clog_, mul_real. cbn [have fb_bind k_ln1_10 RE]. cx.
-  pose proof ln10_pos. apply pair_eq; field; lra.
+  pose proof ln10_pos. destruct (log_fb RO RE z) as [p q]; cbn [fst snd]. apply pair_eq; field; lra.
 Qed.
 
 (* for every binding of log: log2 z = log z / ln 2 (componentwise), logb z b = log z / log b *)
